@@ -8,7 +8,7 @@ layer description (Core Vol 4 Part A) — *not* from bumble's table:
   type 5 ISO     : handle(2) len(2, LE)        -> header 4, length at offset 3, 2 bytes
                    (bumble reads all 16 bits of the ISO length word; so does this oracle)
 """
-from pyvc.contracts import ite
+from pyvc.contracts import at, ite
 
 
 def valid(t):
@@ -31,13 +31,31 @@ def len_off(t):
 
 def body_len(p):
     """announced body length of a packet whose header is complete"""
-    off = len_off(p[0])
-    return ite(len_size(p[0]) == 2, p[off] + 256 * p[off + 1], p[off])
+    off = len_off(at(p, 0))
+    return ite(len_size(at(p, 0)) == 2, at(p, off) + 256 * at(p, off + 1), at(p, off))
 
 
 def is_frame(p):
-    return len(p) >= 1 and valid(p[0]) and len(p) >= 1 + hdr(p[0]) and len(p) == 1 + hdr(p[0]) + body_len(p)
+    return len(p) >= 1 and valid(at(p, 0)) and len(p) >= 1 + hdr(at(p, 0)) and len(p) == 1 + hdr(at(p, 0)) + body_len(p)
+
+
+def is_partial(p):
+    """proper prefix of a frame (or empty): what a framer may hold between chunks"""
+    return len(p) == 0 or (valid(at(p, 0)) and (len(p) < 1 + hdr(at(p, 0)) or len(p) < 1 + hdr(at(p, 0)) + body_len(p)))
 
 
 def is_prefix(a, b):
     return len(a) <= len(b) and a == b[: len(a)]
+
+
+# --- USB per-endpoint splitter: header of lo+ls bytes, little-endian length at lo
+def le_at(p, lo, ls):
+    return ite(ls == 2, at(p, lo) + 256 * at(p, lo + 1), at(p, lo))
+
+
+def is_frame_k(p, lo, ls):
+    return len(p) >= lo + ls and len(p) == lo + ls + le_at(p, lo, ls)
+
+
+def is_partial_k(p, lo, ls):
+    return len(p) < lo + ls or len(p) < lo + ls + le_at(p, lo, ls)
